@@ -393,6 +393,9 @@ func init() {
 				g.Case(ops)
 			})
 			for _, b := range c13bigCases(g) {
+				if !g.Thorough() && c13longest(b.left) > 8193 {
+					continue // 64 KiB lines matter to the readers (C14); New/AddContext/Unify only compare lines
+				}
 				g.Each(c13bigOps(b))
 			}
 		},
